@@ -340,7 +340,8 @@ def run_case(ctx, n_tracers, attempts, script, kind, supplied_ctx, is_async):
 
 def gen(ctx):
     rng = ctx.rng
-    full = ctx.thorough
+    deep = ctx.thorough
+    full = True
     k = 0
     sync_outs = [o for o in OUTCOMES if o != 'cancel-task']
     for attempts in (None, 0, 1, 2, 3):
@@ -348,16 +349,14 @@ def gen(ctx):
         length = n + 1
         for is_async in (False, True):
             outs = OUTCOMES if is_async else sync_outs
-            if n <= 2:
+            if n <= 2 or (deep and n == 3):
                 scripts = list(itertools.product(outs, repeat=length))
-                if n == 2 and not full:
-                    scripts = rng.sample(scripts, 400)
             else:
                 scripts = [tuple(rng.choice(outs) for _ in range(length)) for _ in range(2500 if full else 150)]
                 scripts += [tuple(rng.choice(['listed', 'exc-listed', 'undecodable', 'identity']) for _ in range(n)) + (rng.choice(outs),)
                             for _ in range(1500 if full else 150)]
             for script in scripts:
-                for _ in range(4 if full else 1):
+                for _ in range((6 if n <= 2 else 2) if deep else (3 if n <= 1 else 1)):
                     k += 1
                     yield 'case', dict(n_tracers=(1, 2, 3, 0, 3, 1, 2)[k % 7], attempts=attempts, script=list(script),
                                        kind=('single', 'batch', 'single', 'notification', 'batch')[k % 5],
